@@ -900,7 +900,8 @@ class Interp:
             if kind == "set" and hasattr(it, "sym_setcomp"):
                 return it.sym_setcomp(self, e, g, frame)
             if g.ifs:
-                raise Unsupported("filtered comprehension over a symbolic iterable")
+                seq = V.as_symseq(self, it)
+                return V.filtered_comp(self, e, g, seq, frame, kind)
             seq = V.as_symseq(self, it)
             return V.symbolic_comp(self, e, g, seq, frame, kind)
         # nested generators: only over concrete outer iterables
